@@ -2,7 +2,9 @@
 //! finite case spaces explored for that tier) and `ASSUMPTIONS`.
 use crate::util::*;
 
+pub mod c01_04;
 pub mod c12;
+pub mod sweep;
 pub mod c16;
 
 pub struct PropDef {
@@ -17,6 +19,10 @@ pub struct PropDef {
 
 pub fn all() -> Vec<PropDef> {
     vec![
+    PropDef { id: "C01", spaces: c01_04::spaces_c01, assumptions: c01_04::ASSUMPTIONS, budget: (60.0, 3000.0), post: None },
+    PropDef { id: "C02", spaces: c01_04::spaces_c02, assumptions: c01_04::ASSUMPTIONS, budget: (60.0, 3000.0), post: None },
+    PropDef { id: "C03", spaces: c01_04::spaces_c03, assumptions: c01_04::ASSUMPTIONS, budget: (60.0, 3000.0), post: None },
+    PropDef { id: "C04", spaces: c01_04::spaces_c04, assumptions: c01_04::ASSUMPTIONS, budget: (60.0, 3000.0), post: None },
     PropDef {
         id: "C12",
         spaces: c12::spaces,
@@ -66,6 +72,9 @@ pub fn replay(path: &str) -> i32 {
         for s in (def.spaces)(tier, 0) {
             if s.name() == space {
                 println!("replaying {} / {} / case {}: {}", prop, space, id, s.describe(id));
+                if std::env::var("VERIF_DEBUG").is_ok() {
+                    println!("{}", s.debug(id));
+                }
                 let mut ctx = Ctx::default();
                 let r = match guarded(|| s.run(id, &mut ctx)) {
                     Ok(r) => r,
